@@ -50,14 +50,28 @@ impl Future for Gate {
 }
 struct Mock(Arc<Shared>);
 
-/// The module of a key: k2 and k3 differ from k1 in exactly one component of the module identity.
+/// The module of a key.  Two identity mappings (VERIF_IDMAP):
+///   "ids"  (default): k2 and k3 differ from k1 in exactly one identifier (age of the debug id / code id), same file names;
+///   "dirs": no identifiers at all; the keys are three different libraries that share a leaf name and differ only in
+///           the directory of their code file.
+fn dirs_mapping() -> bool {
+    std::env::var("VERIF_IDMAP").map(|v| v == "dirs").unwrap_or(false)
+}
 fn module_of(key: &str) -> SimpleModule {
+    if dirs_mapping() {
+        let dir = match key { "k1" => "/system/lib64", "k2" => "/vendor/lib64", _ => "/opt/x" };
+        return SimpleModule { base_address: Some(0x1000), size: Some(0x1000), code_file: Some(format!("{}/lib.so", dir)), code_identifier: None, debug_file: None, debug_id: None, version: None };
+    }
     let guid = "0123456789ABCDEF0123456789ABCDEF";
     let (age, code_id) = match key { "k1" => ("0", "5a5a5a5a1000"), "k2" => ("1", "5a5a5a5a1000"), _ => ("0", "5a5a5a5a2000") };
     SimpleModule { base_address: Some(0x1000), size: Some(0x1000), code_file: Some("lib.so".into()), code_identifier: Some(CodeId::from_str(code_id).unwrap()),
                    debug_file: Some("lib.pdb".into()), debug_id: Some(DebugId::from_breakpad(&format!("{}{}", guid, age)).unwrap()), version: None }
 }
 fn key_of(module: &(dyn Module + Sync)) -> String {
+    if dirs_mapping() {
+        let f = module.code_file().to_string();
+        return if f.starts_with("/system") { "k1".into() } else if f.starts_with("/vendor") { "k2".into() } else { "k3".into() };
+    }
     let age = module.debug_identifier().map(|d| d.appendix()).unwrap_or(0);
     let cid = module.code_identifier().map(|c| c.to_string()).unwrap_or_default();
     if age == 1 { "k2".into() } else if cid.ends_with("2000") { "k3".into() } else { "k1".into() }
